@@ -23,7 +23,7 @@ Definition set_obs (t : track) (n : str) (k : nat) (v : val) : res track :=
   else if str_eqb n (s_ "z") then set_col t n (set_nth (zs t) k v)
   else match lookup (dico t) n with
        | None => Err AFError
-       | Some i => set_col t n (map (fun f => nth i f None) (set_nth (feats t) k (set_nth (nth k (feats t) []) i v)))
+       | Some i => set_col t n (set_nth (map (fun f => nth i f None) (feats t)) k v)      (* only row k changes: written as the column with entry k replaced *)
        end.
 
 Inductive xop :=
